@@ -82,6 +82,11 @@ def gen(rng, tier):
             sfn = fn.replace("_to_str", "_to_string")
             if (sfn, ty) in h["string_fns"]:
                 cases.append("tostring %s %s" % (sfn, sv(v)))
+    covered = {fn.replace("_to_str", "_to_string") for fn, _ in h["str_fns"]}
+    for sfn, ty in h["string_fns"]:          # *_to_string helpers with no *_to_str underneath (p_flags_to_string)
+        if sfn not in covered:
+            for v in tostr_values(rng, tier, ty, [0, 1, 2, 3, 4, 5, 6, 7, 8, 15, 16]):
+                cases.append("tostring %s %s" % (sfn, sv(v)))
     return cases
 
 
@@ -211,6 +216,12 @@ def oracle(case, impl, model):
         if model not in ("untranslated", impl):
             _tie.append("%s(%d): generated arm table gives %s, rustc says %s" % (t[1], x, model, impl))
         return None
+    if t[0] == "tostring" and t[1] == "p_flags_to_string" and impl.startswith("x"):
+        text = bytes.fromhex(impl[1:]).decode("utf-8", "replace")
+        if 0 <= x < 8:         # readelf's rendering of PF_R = 4, PF_W = 2, PF_X = 1
+            want = ("R" if x & 4 else " ") + ("W" if x & 2 else " ") + ("E" if x & 1 else " ")
+            return None if text == want else "p_flags_to_string(%d) = %r, the gABI flag bits read %r" % (x, text, want)
+        return None if ("%x" % x) in text.lower() or str(x) in text else "p_flags_to_string(%d) = %r does not contain the number" % (x, text)
     if t[0] == "tostring":
         base = _coq["tostr_impl"].get("tostr %s %s %s" % (t[1].replace("_to_string", "_to_str"), t[2], t[3]))
         if base is None or impl in ("range", "unknown"):
